@@ -37,3 +37,18 @@ LEVEL_NOTE = ("trusted: specs/den.py, specs/graphpred.py, z3 on the per-pattern 
               "the native graph operators; the empty edge set is admitted for the path as documented; scope as in coverage.rule")
 TRUSTED = ["specs/den.py", "specs/graphpred.py", "z3 (per-pattern satisfiability)", "operand layout of the native graph operators"]
 ASSUMPTIONS = ["bounded scope (see rule)", "the empty edge set is admitted for the path as documented"]
+
+
+# ---- the encoder itself: emission contract on the real emitter (pyvc) + Lean lemma over that contract
+TECHNIQUE = ("emission contract + lemma: pyvc proves on the real _active_edges_single_cycle (rank/root encoding) that, for EVERY graph (ghost incidence lists of any size), it creates "
+             "exactly the stated auxiliary variables and posts exactly the stated constraint schema (loop invariants over a ghost record "
+             "of every constructed expression and every posted constraint); Lean 4 + Mathlib proves for every finite multigraph that the "
+             "schema is satisfiable in the auxiliary variables iff the property's graph predicate holds (C06.enc_iff_onecycle, C06.passed_iff_visited in lean/Encoders.lean, "
+             "re-checked by `lean` on every run: no sorry, axioms propext / Classical.choice / Quot.sound only). "
+             + TECHNIQUE)
+LEVEL_TEXT = ("exploration overall: the rank / root encoder is PROVED in two machine-checked halves (pyvc emission contract on the real "
+              "code, Lean lemma over that contract; the translation between the two is by hand and cross-checked by the bounded tier); "
+              "primitive route (degrees + line-graph connectivity), single_path, frame route: plumbing proved by pyvc, encoder bounded. " + LEVEL_TEXT)
+ASSUMPTIONS = ASSUMPTIONS + ["hand translation of the pyvc emission schema into the Lean definition `Enc` (cross-checked by the bounded tier on all small multigraphs)",
+                             "meaning of the posted expression nodes: per-operator contracts of C01 / C12; loop-free graphs where the lemma asks for it",
+                             "Lean 4 kernel + Mathlib"]
